@@ -111,6 +111,28 @@ def object_triple_scenarios(rng, n, mode="th"):
     return out
 
 
+def object_wakeup_triples(mode="th"):
+    """Two calls that contend for ONE identifier plus a third call on an UNRELATED identifier that shares their
+    condition variable: its release notifies, and a waiter that does not re-check its predicate walks into a section
+    that is still held (every condition of the store is shared by all identifiers of its kind)."""
+    T = [
+        ("X-unreferenced", [tag("p1", "X"), tag("p2", "X"), tag("p1.v2", "Y")]),
+        ("empty", [tag("p1", "X"), tag("p2", "X"), tag("p1.v2", "Y")]),
+        ("empty", [st("p1", "X"), st("p2", "X"), st("p1.v2", "Y")]),
+        ("p1,p2->X", [dele("p1"), dele("p2"), tag("p1.v2", "Y")]),
+        ("p1,p2->X", [dele("p1"), dele("p2"), st("p1.v2", "Y")]),
+        ("p1->X", [st("p2", "X"), dele("p1"), st("p1.v2", "Y")]),
+        ("empty", [tag("p1", "X"), tag("p1", "Y"), tag("p2", "X")]),
+        ("p1->X", [st("p1", "Y"), dele("p1"), st("p2", "Y")]),
+        ("X-unreferenced", [tag("p1", "X"), dii("X", False), st("p2", "Y")]),
+    ]
+    out = []
+    for sname, ops in T:
+        name = f"{sname}|" + "||".join(call_name(o) for o in ops) + "|third-party"
+        out.append(C.Scenario(name, OBJECT_STARTS[sname], ops, SPEC, pids=["p1", "p2", "p1.v2"], mode=mode, start_class=sname))
+    return out
+
+
 # ---------------------------------------------------------------- metadata scenarios (C12)
 
 def sm(fmt, doc):
@@ -156,6 +178,26 @@ def meta_triple_scenarios(rng, n, mode="th"):
         if sum(1 for o in ops if o["op"] == "rmeta") > 1:
             continue
         name = f"{sname}|" + "||".join(call_name(o) for o in ops)
+        out.append(C.Scenario(name, META_STARTS[sname], ops, SPEC, DOCS, pids=["p1"], fmts=[None, "f1", "f2", "followup"],
+                              mode=mode, start_class=sname))
+    return out
+
+
+def meta_wakeup_triples(mode="th"):
+    """The same for metadata documents: two calls on one document, a third on another document of the same pid."""
+    T = [
+        ("absent/unbound", [sm("f1", "v1"), sm("f1", "v2"), sm("f2", "v1")]),
+        ("present/bound", [sm("f1", "v1"), sm("f1", "v2"), sm("f2", "v1")]),
+        ("present/bound", [dm("f1"), sm("f1", "v2"), sm("f2", "v1")]),
+        ("present/bound", [dm("f1"), dm("f1"), dm("f2")]),
+        ("present/bound", [sm("f1", "v2"), dm(None), sm("f2", "v1")]),
+        ("present/unbound", [dm(None), dm(None), sm("f2", "v2")]),
+    ]
+    out = []
+    for sname, ops in T:
+        if sname not in META_STARTS:
+            continue
+        name = f"{sname}|" + "||".join(call_name(o) for o in ops) + "|third-party"
         out.append(C.Scenario(name, META_STARTS[sname], ops, SPEC, DOCS, pids=["p1"], fmts=[None, "f1", "f2", "followup"],
                               mode=mode, start_class=sname))
     return out
